@@ -6,8 +6,6 @@ from vlib import gen as G
 
 ID = "C14"
 PROP_FILE = "Props/C14.v"
-THEOREMS = ["C14_message", "C14_detailed", "C14_documentation", "C14_disabled", "C14_serializations", "C14_doc_text_one",
-            "C14_doc_text_many", "C14_nonvacuous"]
 RULE = ("enums with 1-8 variants x kinds x {message, detailed_message} presence (all four combinations) x 0-4 doc lines (0-3 "
         "leading spaces, empty lines, quotes, braces, non-ASCII, a block comment rendered as one multi-line doc attribute; docs "
         "interleaved with #[strum] attributes) x naming attributes x serialize_all x disabled placement (including enums where "
